@@ -97,31 +97,32 @@ def hook_commits():
 # additions made while strengthening the checks against independently seeded
 # changes (DESIGN.md Appendix F.2); appended to the level text
 EXTRA = {
- "C01": "Generator also covers: the same pattern text matched against a second subject inside the first one's block, m++/m-- used for its value, writes/del reusing an earlier label tuple, `expr || e =~ /re/` conditions, decorator definitions whose next sits under two nested capturing conditions. Compilers are long-lived and pooled (a compile must not depend on what was compiled before).",
+ "C01": "Generator also covers: the same pattern text matched against a second subject inside the first one's block, m++/m-- used for its value, writes/del reusing an earlier label tuple, `expr || e =~ /re/` conditions, decorator definitions whose next sits under two nested capturing conditions. Compilers are long-lived and pooled (a compile must not depend on what was compiled before). Also: $0 (through a metric only ever indexed by it), patterns without capture groups, and a grid of every Int operator on run-time operands over all pairs of 11 small values against reference arithmetic.",
  "C02": "Grid also covers the 5 shift/bitwise operators on Int x Int (5684 cells); the optimising side uses pooled long-lived compilers; a panic on either side is captured as a violation.",
  "C03": "Further structured families: every binary operator x every pair of 16 hostile constant operands (as value, as condition, with a non-constant sibling); every place a pattern expression can stand x 27 shapes of pattern expression; const fragments defined from fragments (doubling chains, memory watchdog); characters Unicode classes as digits/letters/spaces at every kind of position; every short token lexed as a duration or number (25k inputs quick).",
- "C04": "Plus a grid of 17 operators and 8 numeric builtins on runtime (captured) operands over all pairs of 16 Int / 14 Float boundary values, and one single-VM history of 3.4k/23k lines with distinct timestamps through strptime.",
- "C05": "Plus 6 pinned per-line-state shapes (captures behind a short-circuit / in a branch not taken, time register, matched flag, stop); half of the programs may read captures of conditions that were not evaluated.",
+ "C04": "Plus a grid of 17 operators and 8 numeric builtins on runtime (captured) operands over all pairs of 16 Int / 14 Float boundary values, and one single-VM history of 3.4k/23k lines with distinct timestamps through strptime. Also lines of hostile length / encoding that raise checked errors (multi-byte characters across offsets 62..4094, continuation-byte tails), under the stall oracle.",
+ "C05": "Plus 6 pinned per-line-state shapes (captures behind a short-circuit / in a branch not taken, time register, matched flag, stop); half of the programs may read captures of conditions that were not evaluated. Also pinned shapes for a line on which an instruction panics and for the same failing line repeated, each with and without runtime-error logging (every third generated program runs with it).",
  "C06": "Every fifth set holds two byte-identical program files; interleaved operations include a reload of a name's first owner with another kind.",
  "C07": "Plus 4 zoned year-less layouts, and 4/60 long histories: one VM, 2.6k/6k lines, ~2k distinct texts in two layouts with revisits 1..2049 distinct texts back.",
  "C09": "Operations also include RemoveOldestDatum and Store.Gc; 150/6000 burst sequences over a 96-tuple universe (grow to <=96, shrink to <=8).",
- "C10": "Each store is judged over 4 GC passes with store mutations (older re-stamps, new marks) between passes 2 and 3; timestamps include two beyond the range of a time.Duration (300 and 335 years back).",
- "C11": "Sizes now 6 A/B + 6 C runs (quick), 60 + 30 (thorough). A/B runs add a 4th program whose expiry clock is driven by settime (key written stamped 1970, then stamped now+10h: must end present with 1 or 2) and a new label set every 25 lines; workload C: every line creates a label set, a third of the lines stalled, reloads back to back, conservation per key; one forced schedule (Store.Gc between a line's dload and inc) documents known finding C11-e, whose classifier needs 'in the store at the line's dload, gone at its end' (instruction hook). Every run is guarded by the stall oracle (goroutine dump: lock waits of >= 2 minutes).",
+ "C10": "Each store is judged over 4 GC passes with store mutations (older re-stamps, new marks) between passes 2 and 3; timestamps include two beyond the range of a time.Duration (300 and 335 years back). Also a text metric re-set to the same value (a datum's time must be the instant of its last update) and idle times within a second of the expiry incl. fractional expiries, judged when determinate within the pass bracket.",
+ "C11": "Sizes now 6 A/B + 6 C runs (quick), 60 + 30 (thorough). A/B runs add a 4th program whose expiry clock is driven by settime (key written stamped 1970, then stamped now+10h: must end present with 1 or 2) and a new label set every 25 lines; workload C: every line creates a label set, a third of the lines stalled, reloads back to back, conservation per key; one forced schedule (Store.Gc between a line's dload and inc) documents known finding C11-e, whose classifier needs 'in the store at the line's dload, gone at its end' (instruction hook). Every run is guarded by the stall oracle (goroutine dump: lock waits of >= 2 minutes). Two more export loops talk to a client that goes away at the k-th write.",
  "C12": "Plus cancellation at every k-th look the handler takes at the request context, and a concurrent phase (6 exporters x 400/4000 clean, cancelled and failing attempts against 3 writers x 20k/200k write-locking updates incl. GC), run once on a clean store and once per kind of unrepresentable item, judged by the stall oracle.",
- "C13": "Plus: a label key literally named prog; pairs of label sets differing only in where a separator-like character sits; a second scrape with the same exporter after every value changed while its timestamp stayed the same; a concurrent phase (2 x 200/4000 scrapes while 2 mutators remove and re-create label sets; a label set no mutation of which overlaps the scrape on the shared logical clock must be listed exactly once with its value; no series twice; the scrape succeeds).",
- "C14": "13 versions now (also: kind changed on a later declaration, kind clash between two declarations of the program itself).",
- "C15": "Plus 6k/300k generation runs: reader A goes through 2-4 generations (Finish after each, then reused, as the file streams do at truncation) while a second reader created after A's first Finish interleaves its reads.",
- "C16": "Three pre-existing-content modes (none / unterminated / terminated and not read from the start).",
- "C17": "Plus 200/2000 special schedules: cancellation while a single small write (many lines + tail) is still being handed to a slow consumer (everything read must come out); one unixgram sender building a newline-free backlog up to the read-buffer size followed by a large datagram; connections arriving in a storm while the stream is cancelled.",
- "C18": "Steps also include a directory replaced by a file of the same name (and back) within one step.",
- "C19": "Every 8th run has a file larger than the read buffer with an LF/CRLF line end placed on the buffer boundary and, half of the time, a line longer than two buffers; two thirds of the runs configure an HTTP listener (unix socket / tcp) as the binary does; the last run(s) are stalled at the hook to last 6.5 s (thorough also 35 s).",
- "C20": "The last run(s) hold one line for 1.6 s (thorough also 6 s and 31 s) with a reload requested meanwhile; every run is guarded by the stall oracle.",
+ "C13": "Plus: a label key literally named prog; pairs of label sets differing only in where a separator-like character sits; a second scrape with the same exporter after every value changed while its timestamp stayed the same; a concurrent phase (2 x 200/4000 scrapes while 2 mutators remove and re-create label sets; a label set no mutation of which overlaps the scrape on the shared logical clock must be listed exactly once with its value; no series twice; the scrape succeeds). In every fifth store the exporter's own context is cancelled before the second scrape.",
+ "C14": "13 versions now (also: kind changed on a later declaration, kind clash between two declarations of the program itself). Every third history runs with -omit_metric_source, every fourth with runtime-error logging.",
+ "C15": "Plus 6k/300k generation runs: reader A goes through 2-4 generations (Finish after each, then reused, as the file streams do at truncation) while a second reader created after A's first Finish interleaves its reads. The alphabets include NUL.",
+ "C16": "Three pre-existing-content modes (none / unterminated / terminated and not read from the start). Steps also include a fragment ending in CR and an LF alone (CR and LF in different appends).",
+ "C17": "Plus 200/2000 special schedules: cancellation while a single small write (many lines + tail) is still being handed to a slow consumer (everything read must come out); one unixgram sender building a newline-free backlog up to the read-buffer size followed by a large datagram; connections arriving in a storm while the stream is cancelled. Datagram senders send empty datagrams in between.",
+ "C18": "Steps also include a directory replaced by a file of the same name (and back) within one step. Patterns also include literal patterns spelled non-canonically or with glob quoting; file names include '#', '?' and '%41'.",
+ "C19": "Every 8th run has a file larger than the read buffer with an LF/CRLF line end placed on the buffer boundary and, half of the time, a line longer than two buffers; two thirds of the runs configure an HTTP listener (unix socket / tcp) as the binary does; the last run(s) are stalled at the hook to last 6.5 s (thorough also 35 s). Every fourth run finds its logs through one glob that also matches a stale unix socket file sorting first.",
+ "C20": "The last run(s) hold one line for 1.6 s (thorough also 6 s and 31 s) with a reload requested meanwhile; every run is guarded by the stall oracle. Every third run alternates versions that change the kind of an exported metric.",
  "C21": "Bounds pool includes negative fractions; whole-number observations also go through an Int-typed capture into a third histogram; a fourth histogram's label sets are deleted and re-created (each must start from nothing).",
- "C22": "A third of the stores are exported after a Prometheus scrape and aborted /varz and /graphite requests with the same exporter; plus a concurrent phase (6 formats x 150/3000 exports against 2 mutators, logical-clock stability oracle: exactly one record with its own value for every label set no mutation of which overlaps the export).",
- "C23": "Generator also emits literals with a backslash right before their own delimiter and del-after durations that are not a whole number of seconds.",
- "C24": "Operators also: unused declaration inside a decorator definition, pattern over the length limit only as a whole (literal + const, short literal + const + const); the Runtime sample is a submission history (defective, same bytes again, valid base, defective again).",
- "C25": "Plus 25/600 shutdown runs (burst of lines, slow programs, wake-up, immediate cancel; lines_total == fan-out count == sum of log_lines_total after Run returned); the refused program clashes on two names in odd runs.",
- "C26": "Plus histories (exhaustive to length 3/4) over a program that is a symlink to a file outside the directory whose target can be moved away (entry present, unreadable) and back.",
+ "C22": "A third of the stores are exported after a Prometheus scrape and aborted /varz and /graphite requests with the same exporter; plus a concurrent phase (6 formats x 150/3000 exports against 2 mutators, logical-clock stability oracle: exactly one record with its own value for every label set no mutation of which overlaps the export). Plus a real PushMetrics run with graphite (tcp), collectd (unix) and statsd (udp) targets configured at once: each collector must receive its own format's records, once.",
+ "C23": "Generator also emits literals with a backslash right before their own delimiter and del-after durations that are not a whole number of seconds. Half of the programs are rendered fully parenthesised before formatting; literals include non-ASCII text.",
+ "C24": "Operators also: unused declaration inside a decorator definition, pattern over the length limit only as a whole (literal + const, short literal + const + const); the Runtime sample is a submission history (defective, same bytes again, valid base, defective again). Operators also: defects inside operands whose value cannot matter (x * 0, x ** 0, true || x), patterns over the limit in bytes but under it in characters.",
+ "C25": "Plus 25/600 shutdown runs (burst of lines, slow programs, wake-up, immediate cancel; lines_total == fan-out count == sum of log_lines_total after Run returned); the refused program clashes on two names in odd runs. Runs rotate through the binary's default / common options (runtime-error logging, omit source, emit timestamp, current year, omit prog label); a log reached through a symbolic link; log_lines_total[name] must equal the delivered lines carrying that name.",
+ "C26": "Plus histories (exhaustive to length 3/4) over a program that is a symlink to a file outside the directory whose target can be moved away (entry present, unreadable) and back. Plus the whole program directory away for one reload.",
+ "C08": "Also a raw-byte alphabet (invalid UTF-8 bytes, case pairs) with rune-wise / case-folding naive encodings.",
 }
 
 props = [json.loads(l)["id"] for l in open(os.path.join(ROOT,"properties.jsonl"))]
